@@ -1084,7 +1084,13 @@ def simplify_variable(
     return var
   new_var = ctx.program.NewVariable()
   for bindings in bindings_by_hash.values():
-    new_var.AddBinding(bindings[0].data, bindings, node)
+    # One source set per merged binding: the merged value is explained by ANY of
+    # the original bindings. A single source set holding all of them would
+    # require all of them at once, which is unsatisfiable whenever they are
+    # bindings of the same variable (e.g. the two arms of `x if c else y`), and
+    # the solver would then never see the merged value.
+    for b in bindings:
+      new_var.AddBinding(bindings[0].data, [b], node)
   return new_var
 
 
